@@ -282,13 +282,11 @@ Proof.
   cbn [rbind].
   destruct (ar_fields r) as [|f0 ft] eqn:Ef.
   - cbn [foldM]. unfold class_of. f_equal.
-    destruct (h_cfg h), (ar_access r), (ar_byte_order r), (ar_bit_order r), (ar_reset r), (ar_repeat r),
-      (ar_allow_bit_overlap r), (ar_allow_address_overlap r); reflexivity.
+    destruct (h_cfg h), (ar_byte_order r), (ar_reset r), (ar_repeat r); reflexivity.
   - cbn [foldM]. unfold m_register_step at 1. keys.
     rewrite (m_fields_ok toml dfa (f0 :: ft)) by (apply fields_ok_field_ok; assumption).
     cbn [rbind]. unfold class_of. f_equal.
-    destruct (h_cfg h), (ar_access r), (ar_byte_order r), (ar_bit_order r), (ar_reset r), (ar_repeat r),
-      (ar_allow_bit_overlap r), (ar_allow_address_overlap r); reflexivity.
+    destruct (h_cfg h), (ar_byte_order r), (ar_reset r), (ar_repeat r); reflexivity.
 Qed.
 
 (* ---- command ---- *)
@@ -362,8 +360,7 @@ Proof.
       rewrite (m_fields_ok toml dfa a0 (fields_ok_field_ok _ Ha0)); reflexivity
      |destruct (h_cfg h); reflexivity|assumption].
   unfold class_of. f_equal.
-  destruct (h_cfg h), (ak_byte_order c), (ak_bit_order c), (ak_repeat c), (ak_allow_bit_overlap c),
-    (ak_allow_address_overlap c), (ak_size_in c), (ak_size_out c), (ak_fields_in c), (ak_fields_out c); reflexivity.
+  destruct (h_cfg h), (ak_byte_order c), (ak_repeat c), (ak_fields_in c), (ak_fields_out c); reflexivity.
 Qed.
 
 (* ---- buffer ---- *)
@@ -375,6 +372,6 @@ Lemma m_buffer_spec : forall g h b,
                       ++ opt_key "address" MInt (ab_address b)))
   = class_of (spec_buffer g h b).
 Proof.
-  intros g [[c|] [|] n] [[acc|] [a|]] H; unfold m_buffer, spec_buffer, head_keys; cbn in H |- *;
-    rewrite ?m_access_ok, ?(as_int_ok _ H); cbn; rewrite ?(as_int_ok _ H); reflexivity.
+  intros g [[c|] [|] n] [[[| |]|] [a|]] H; unfold m_buffer, spec_buffer, head_keys; cbn in H |- *;
+    rewrite ?H; reflexivity.
 Qed.
